@@ -195,6 +195,35 @@ func main() {
 		o.Set("resp.crlfAfterBulk", aParse, fmt.Sprint(strings.Contains(prSrc, "expectCRLF(r)")), pr != nil, "true")
 	}
 
+	{
+		// conn.skipEmpty: handleConn skips a frame without arguments before execute indexes args[0]:
+		// the `if` whose body flushes pending replies and `continue`s tests `len(args) == 0`.
+		hc := sv.Func("redisServer.handleConn")
+		val, ok := "", false
+		if hc != nil {
+			ast.Inspect(hc.Body, func(x ast.Node) bool {
+				is, isIf := x.(*ast.IfStmt)
+				if !isIf || len(is.Body.List) == 0 {
+					return true
+				}
+				if br, isBr := is.Body.List[len(is.Body.List)-1].(*ast.BranchStmt); isBr && br.Tok == token.CONTINUE {
+					switch c := sv.Src(is.Cond); {
+					case c == "len(args) == 0" || c == "len(args) < 1":
+						val, ok = "len0", true
+					case strings.Contains(c, "args"):
+						val, ok = strings.ReplaceAll(c, " ", ""), true
+					}
+				}
+				return true
+			})
+			// execute must come after the skip and be the only consumer of args
+			if ok && !(strings.Index(sv.Src(hc.Body), "continue }") < strings.Index(sv.Src(hc.Body), "s.execute(writer, args)")) {
+				ok = false
+			}
+		}
+		o.Set("conn.skipEmpty", "cmd/nokv-redis/server.go:handleConn", val, ok, "len0")
+	}
+
 	// ---------------------------------------------------------------- command layer (C29)
 	const aExec = "cmd/nokv-redis/server.go:execute"
 	const aSet = "cmd/nokv-redis/server.go:execSet"
